@@ -120,6 +120,15 @@ fn fixed_cases() -> Vec<Case> {
             out.push(Case::new(format!("x := \"X\"\n{}", ctxt.replace('@', lit)), T_FIXED, format!("interpolated literal {} in {:?}", lit, ctxt.replace('\n', " "))));
         }
     }
+    // slots are evaluated left to right, each once
+    for c in super::evalorder::cases(T_FIXED) {
+        if c.meta.contains("$\"") {
+            out.push(c);
+        }
+    }
+    out.push(Case::new("n := 0\nfn next() {\nn += 1\nreturn $\"${\"0123456789\"[n]}\"\n}\nprint($\"${next()} ${next()} ${next()}\")\nprint($\"${next()}${missing1}${missing2}\")\n".to_string(), T_FIXED, "slots with side effects".to_string()));
+    // `+=` on a string variable that shadows another string variable
+    out.push(Case::new("out := \"G\"\nfn join(parts) {\nout := \"\"\nfor [i, p] in parts {\nout += p\n}\nreturn out\n}\nprint(join([\"ä\", \"ö\"]))\nprint(out)\n{\nout := \"B\"\nout += \"é\"\nprint(out)\n}\nprint(out)\nfn sh(out) {\nout += \"!\"\nreturn out\n}\nprint(sh(\"p\"))\nprint(out)\n".to_string(), T_FIXED, "string += on a shadowing variable".to_string()));
     // text inside a slot is lexed when the slot is evaluated: every lexical error kind there is a
     // reported error (after the output so far), never a crash
     for (name, slot) in [
